@@ -388,9 +388,7 @@ func c17Case(tier string, seed int64, idx int, scratch string) rt.CaseResult {
 	regained := map[string]*regainState{} // directories that regained room and have not received a file yet
 	roots := env.Cfg.Storage.RootDirs
 	for i, s := range steps {
-		if i%50 == 0 {
-			rt.Beat()
-		}
+		rt.Beat() // every step is followed by a walk of the whole tree
 		if s.Op != "mark-reactivation" {
 			if m := r.Do(i, s); m != nil {
 				replay["step"] = s
